@@ -69,7 +69,9 @@ def normalize_anonymous(text: str) -> str:
 
 PRE_PASSES = [[], [], [["decompose", "zyz"]], [["decompose", "mckay"]], [["decompose", "cnot"]], [["merge"]],
               [["replace", "CNOT", "cnot_to_hczh"]], [["map", "perm"]], [["decompose", "xyx"], ["map", "perm"]],
-              [["decompose", "cnot"], ["merge"], ["decompose", "mckay"]]]
+              [["decompose", "cnot"], ["merge"], ["decompose", "mckay"]],
+              [["replace", "CNOT", "shared"], ["merge"], ["map", "perm"]],
+              [["replace", "CNOT", "shared"], ["map", "perm"], ["merge"], ["map", "perm"]]]
 
 
 def apply_pre(rng, c, pre):
